@@ -172,6 +172,15 @@ func genNode(rng *rand.Rand) ([]byte, string) {
 			copy(sig[4:], make([]byte, 12))
 		case 2:
 			pf, sty, kind = byte(rng.Intn(256)), byte(rng.Intn(256)), "hd-other"
+		case 3:
+			// the partition format and the signature type are separate fields and may disagree:
+			// the text follows the signature type
+			if rng.Intn(2) == 0 {
+				pf, sty, kind = 2, 1, "hd-mbr"
+				copy(sig[4:], make([]byte, 12))
+			} else {
+				pf, sty, kind = 1, 2, "hd-gpt"
+			}
 		}
 		if kind == "hd-gpt" && rng.Intn(3) == 0 { // asymmetric bytes: byte order shows
 			sig = []byte{1, 2, 3, 4, 5, 6, 7, 8, 9, 10, 11, 12, 13, 14, 15, 16}
